@@ -286,7 +286,7 @@ def builtin_lines(rng, prefix, indent, refs, depth):
 def gen_env(rng, imports, refs_in, final_nl=None, nvals=None):
     lines = []
     if rng.chance(1, 8):
-        lines.append(rng.choice(["# header", "# é header", "---", ""]))
+        lines.append(rng.choice(["# header", "# é header", "---", "", "", "\n", "   "]))   # blank lead: LoadYAML(reader) route
     if imports:
         lines.append("imports:")
         for i in imports:
@@ -327,6 +327,12 @@ def gen_env(rng, imports, refs_in, final_nl=None, nvals=None):
 
 # ---------------------------------------------------------------------------------------------------
 REGRESSION = [
+    # evaluation-time diagnostics whose subject is an EMPTY range (a missing argument), at the end of a line / of the
+    # document: printed with the declaration's own writer, then the same declaration is evaluated again (seeded C19-l)
+    {"envs": {"m": "values:\n  a:\n    fn::toBase64:"}},
+    {"envs": {"m": "values:\n  a:\n    fn::toBase64:\n  b: 1\n"}},
+    {"envs": {"m": "values:\n  a:\n    fn::fromJSON:\n  b: {fn::toString: }\n"}, "mode": "eval"},
+    {"envs": {"m": "values:\n  a: {fn::join: }\n  é:\n    fn::fromBase64:"}},
     # last line without a final newline
     {"envs": {"m": "values:\n  k: last"}},
     {"envs": {"m": "# c\nvalues:\n  a: 1"}},
